@@ -325,22 +325,36 @@ Proof.
     + destruct (authenticate u q); simpl; intros H; try congruence; split; reflexivity.
 Qed.
 
+Lemma flow_started_spec cfg l :
+  flow_started re_match cfg l = true <-> r_kind (handle cfg (start_request l)) = KSignIn.
+Proof.
+  unfold flow_started, Hostmux.handle, start_request at 2 3. cbn [q_path q_host].
+  destruct (str_eqb (l_spath l) ping_path); cbn [negb andb]; [split; discriminate|].
+  destruct (route_of re_match cfg (l_start l)) as [u|]; [|split; discriminate].
+  unfold Hostmux.proxy_request. destruct (whitelisted re_match u (start_request l)); cbn [negb];
+    [split; discriminate|]. unfold Hostmux.authenticate, start_request. cbn [q_cookie]. split; reflexivity.
+Qed.
+
 Lemma login_of_upstream cfg l u :
   route_of re_match cfg (l_host l) = RUp u ->
   (forall s, snd (callback cfg l) = Some s <->
+     flow_started re_match cfg l = true /\
      login_admit lower (u_policy u) (l_email l) (l_groups l) = true /\
      s = {| s_slug := pslug u; s_upstream := l_host l; s_email := l_email l |}) /\
   (forall s, snd (callback cfg l) = Some s -> r_cookie (fst (callback cfg l)) = CkSet s) /\
   (snd (callback cfg l) = None -> r_cookie (fst (callback cfg l)) = CkNone) /\
   r_slug (fst (callback cfg l)) = Some (pslug u).
 Proof.
-  intros Hr. unfold Hostmux.callback. rewrite Hr. unfold callback_on.
-  destruct (login_admit lower (u_policy u) (l_email l) (l_groups l)); simpl.
-  - split; [|split; [|split]]; try reflexivity.
-    + intros s. split; [intros H; inversion H; auto | intros [_ ->]; reflexivity].
-    + intros s H. inversion H; reflexivity.
-    + discriminate.
-  - split; [|split; [|split]]; try reflexivity.
+  intros Hr. unfold Hostmux.callback. rewrite Hr. destruct (flow_started re_match cfg l).
+  - unfold callback_on. destruct (login_admit lower (u_policy u) (l_email l) (l_groups l)); simpl.
+    + split; [|split; [|split]]; try reflexivity.
+      * intros s. split; [intros H; inversion H; auto | intros [_ [_ ->]]; reflexivity].
+      * intros s H. inversion H; reflexivity.
+      * discriminate.
+    + split; [|split; [|split]]; try reflexivity.
+      * intros s. split; [discriminate | intros [_ [H _]]; discriminate].
+      * discriminate.
+  - simpl. split; [|split; [|split]]; try reflexivity.
     + intros s. split; [discriminate | intros [H _]; discriminate].
     + discriminate.
 Qed.
@@ -350,6 +364,7 @@ Lemma callback_cookie cfg l :
   r_cookie (fst (callback cfg l)) = match snd (callback cfg l) with Some s => CkSet s | None => CkNone end.
 Proof.
   unfold Hostmux.callback. destruct (route_of re_match cfg (l_host l)) as [u|]; [|reflexivity].
+  destruct (flow_started re_match cfg l); [|reflexivity].
   unfold callback_on. destruct (login_admit lower (u_policy u) (l_email l) (l_groups l)); reflexivity.
 Qed.
 
@@ -361,6 +376,7 @@ Definition bound (st : hstate) : Prop :=
 Lemma callback_stamps cfg l s : snd (callback cfg l) = Some s -> s_upstream s = l_host l.
 Proof.
   unfold Hostmux.callback. destruct (route_of re_match cfg (l_host l)) as [u|]; [|discriminate].
+  destruct (flow_started re_match cfg l); [|discriminate].
   unfold callback_on. destruct (login_admit lower (u_policy u) (l_email l) (l_groups l)); [|discriminate].
   simpl. intros H; inversion H; reflexivity.
 Qed.
@@ -413,6 +429,17 @@ Proof.
   rewrite E. reflexivity.
 Qed.
 
+(* a sign-in opened on one host and closed by a callback on another: the session belongs to the
+   callback's host — it is judged by that host's upstream and accepted nowhere else, in particular
+   not on the host the flow was opened on *)
+Lemma cross_host_flow cfg l s q :
+  snd (callback cfg l) = Some s -> q_cookie q = Some s -> q_host q <> l_host l ->
+  accepted (handle cfg q) = false.
+Proof.
+  intros Hs Hc Hne. apply handle_other_host with (s := s); [exact Hc|].
+  rewrite (callback_stamps cfg l s Hs). congruence.
+Qed.
+
 (* the identity header is asserted only when the session was accepted *)
 Lemma user_only_when_accepted cfg q : accepted (handle cfg q) = false -> r_user (handle cfg q) = None.
 Proof.
@@ -459,7 +486,7 @@ Proof.
   - apply Hb; exact Hin.
   - destruct os as [s'|]; [|discriminate]. inversion Hin; subst. clear Hin.
     unfold Hostmux.callback in E. destruct (route_of re_match cfg (l_host l)) as [u|] eqn:Er; [|discriminate].
-    exists u. split; [reflexivity|]. unfold callback_on in E.
+    exists u. split; [reflexivity|]. destruct (flow_started re_match cfg l); [|discriminate]. unfold callback_on in E.
     destruct (login_admit lower (u_policy u) (l_email l) (l_groups l)); [|discriminate].
     inversion E; subst. split; reflexivity.
 Qed.
@@ -518,8 +545,9 @@ Proof.
       * split; [reflexivity|]. intros s _ H. discriminate.
       * split; [reflexivity|]. intros s _ H. discriminate.
       * split; [discriminate|]. intros s _ H. discriminate.
-  - intros l Hr. unfold Hostmux.callback. rewrite Hr. unfold callback_on.
-    destruct (login_admit lower (u_policy u) (l_email l) (l_groups l)).
+  - intros l Hr. unfold Hostmux.callback. rewrite Hr.
+    destruct (flow_started re_match cfg l); [|split; [reflexivity|]; intros s H; discriminate].
+    unfold callback_on. destruct (login_admit lower (u_policy u) (l_email l) (l_groups l)).
     + split; [reflexivity|]. intros s H. inversion H; reflexivity.
     + split; [reflexivity|]. intros s H. discriminate.
 Qed.
@@ -597,7 +625,7 @@ Proof. vm_compute. reflexivity. Qed.
 
 (* a history: login on y.rw.test, the issued cookie is accepted on y.rw.test and refused on
    z.rw.test although both hosts match the same rewrite route *)
-Definition ex_login : login := {| l_host := h_y; l_email := bob; l_groups := GroupsOk [] |}.
+Definition ex_login : login := {| l_start := h_y; l_spath := page; l_host := h_y; l_email := bob; l_groups := GroupsOk [] |}.
 Definition ex_sess : session := {| s_slug := google; s_upstream := h_y; s_email := bob |}.
 Definition ex_hist : list event :=
   [ELogin ex_login;
@@ -610,6 +638,20 @@ Lemma ex_isolation_nonvacuous :
   map (fun er => accepted (snd er)) tr = [false; true; false] /\
   route_of ex_match ex_cfg h_y = route_of ex_match ex_cfg h_z.
 Proof. vm_compute. repeat split. Qed.
+
+(* sign-in opened on x.rw.test (static route, another upstream), callback delivered to y.rw.test:
+   the session is y.rw.test's — accepted there, refused on the host the flow was opened on *)
+Definition ex_cross : login := {| l_start := h_x; l_spath := page; l_host := h_y; l_email := bob; l_groups := GroupsOk [] |}.
+Lemma ex_cross_host_nonvacuous :
+  let '(st, tr) := run ex_match ex_replace lower_ascii true google ex_cfg init
+      [ELogin ex_cross;
+       ERequest {| q_host := h_y; q_path := page; q_cookie := Some ex_sess |};
+       ERequest {| q_host := h_x; q_path := page; q_cookie := Some ex_sess |}] in
+  flow_started ex_match ex_cfg ex_cross = true /\
+  route_of ex_match ex_cfg h_x <> route_of ex_match ex_cfg h_y /\
+  logins st = [Some (h_y, ex_sess)] /\
+  map (fun er => accepted (snd er)) tr = [false; true; false].
+Proof. vm_compute. repeat split. discriminate. Qed.
 
 (* today's code sends an upstream configured for okta to the default provider *)
 Lemma provider_of_upstream_refuted :
